@@ -121,6 +121,8 @@ def build_exc(name):
         return ValueError('bad value', 7)
     if name == 'KeyError':
         return KeyError('k')
+    if name == 'TimeoutError':
+        return TimeoutError('upstream timed out', 3)
     if name == 'CustomError':
         return CustomError('custom', (1, 2))
     if name == 'CustomError2':
@@ -362,6 +364,28 @@ def _process_case(spec):
             p.kill()
     except Exception:
         pass
+    if spec.get('gc_probe') and 'hang' not in [r[1] for r in res['records']]:
+        # The Process object becomes garbage now. The cyclic collector may run at any allocation, for instance inside the critical
+        # sections of threading.py that every starting or ending thread passes through; whatever finalizers the object has
+        # must be harmless there. (Emulated: a collection while a helper thread holds that lock.)
+        import gc
+
+        lock = getattr(threading, '_shutdown_locks_lock', None)
+        if lock is not None:
+            time.sleep(0.3)  # the helper threads of p finish
+            p._cycle = p
+            del p
+            done = []
+
+            def crit():
+                with lock:
+                    gc.collect()
+                done.append(1)
+
+            t = threading.Thread(target=crit, daemon=True, name='gc-probe')
+            t.start()
+            t.join(15)
+            res['gc_probe'] = 'ok' if done else 'deadlock'
     return res
 
 
